@@ -9,7 +9,7 @@ package service
 // what newPushPullHandler establishes
 //@ pred handlerWF(h *PushPullHandler) = h.ctx != nil && h.managers != nil && h.managers.Mongo != nil && h.managers.Mongo.MongoCollections != nil && h.collectionDoc != nil && h.clientDoc != nil && h.gotPushPullPack != nil && h.gotOption != nil
 // operations of a request as delivered by gRPC: non-nil with identifiers
-//@ pred reqOpsWF(ops []*model.Operation) = forall i int :: 0 <= i && i < len(ops) ==> ops[i] != nil && ops[i].ID != nil
+//@ pred reqOpsWF(ops []*model.Operation) = forall o in ops :: o != nil && o.ID != nil
 
 // pushOperations: accepts exactly the operations continuing the client's sequence, gives them
 // consecutive server sequence numbers after the end of the log, ignores re-pushed ones and
